@@ -94,8 +94,10 @@ class TornadoEventLoop(EventLoop):
         Call all the registered idle callbacks.
         """
         try:
-            for callback in self._idle_callbacks.values():
-                callback()
+            # idle callbacks may remove idle callbacks: iterate over a copy, skip the removed ones
+            for handle, callback in tuple(self._idle_callbacks.items()):
+                if handle in self._idle_callbacks:
+                    callback()
         finally:
             self._idle_asyncio_handle = None
 
